@@ -40,3 +40,15 @@ def sig(r):
     if r.get("exc"):
         out["exc_type"] = r["exc"].split(":")[0]
     return out
+
+
+def prepare_filtered(spinn_terms, budget):
+    """like prepare(), keeping from the separable-network family (C11L) only the given terms"""
+    inner = prepare(budget)
+
+    def f(structs, seed):
+        keep = [s for s in structs if s.get("family") != "C11L" or s.get("term") in spinn_terms]
+        sp = [s for s in keep if s.get("family") == "C11L"]
+        rest = [s for s in keep if s.get("family") != "C11L"]
+        return inner(rest, seed) + [lossrec.expand(s, seed) for s in sp]
+    return f
